@@ -94,6 +94,110 @@ fn focus_for(prop: &str, args: &Args) -> Focus {
   f
 }
 
+/// A burst of tiny oneshot races. The receiver thread spins on `try_recv` (or re-polls one `recv` future with a
+/// no-op waker: legal spontaneous polls) while the sender thread sends - `send` consumes the handle, so the last
+/// sender is gone the moment the value is in. The scripted scenarios hardly ever make a receive overlap exactly that
+/// instant. Rules, judged after both threads are done: a receiver that observed Disconnected must not obtain the
+/// value afterwards (C04), and a value whose send reported Ok is obtained by a receiver that keeps receiving until
+/// it observes Disconnected (C01).
+fn oneshot_race_burst(prop: &str, rng: &mut Rng, res: &mut ShardResult, args: &Args, burst: u64) {
+  use std::future::Future;
+  use std::sync::atomic::{AtomicBool, Ordering};
+  use std::task::{Context, Poll};
+  let n = if cfg!(miri) { 3 } else { 150 };
+  for i in 0..n {
+    let (tx, rx) = fibre::oneshot::oneshot::<u64>();
+    let poll_mode = rng.chance(1, 2);
+    let delay = rng.below(400);
+    let seed = rng.next();
+    let exec = burst * 1000 + i;
+    let id = 0x0511_0000_0000 + exec;
+    let go = AtomicBool::new(false);
+    vh_core::chaos::set_profile(&vh_core::chaos::Profile::pick_tiny(rng));
+    let (first, sent, gave_up) = std::thread::scope(|sc| {
+      let h = sc.spawn(|| {
+        let _g = vh_core::chaos::enter(seed, exec, 1);
+        while !go.load(Ordering::Acquire) {
+          std::hint::spin_loop();
+        }
+        for _ in 0..delay {
+          std::hint::spin_loop();
+        }
+        tx.send(id).is_ok()
+      });
+      let _g = vh_core::chaos::enter(seed, exec, 0);
+      go.store(true, Ordering::Release);
+      struct Nop;
+      impl std::task::Wake for Nop {
+        fn wake(self: std::sync::Arc<Self>) {}
+      }
+      let waker = std::task::Waker::from(std::sync::Arc::new(Nop));
+      let mut cx = Context::from_waker(&waker);
+      let mut fut = Box::pin(rx.recv());
+      let mut spins = 0u64;
+      let mut gave_up = false;
+      let first: Option<u64> = loop {
+        let step: Option<Result<u64, ()>> = if poll_mode {
+          match fut.as_mut().poll(&mut cx) {
+            Poll::Ready(Ok(v)) => Some(Ok(v)),
+            Poll::Ready(Err(_)) => Some(Err(())),
+            Poll::Pending => None,
+          }
+        } else {
+          match rx.try_recv() {
+            Ok(v) => Some(Ok(v)),
+            Err(fibre::error::TryRecvError::Disconnected) => Some(Err(())),
+            Err(_) => None,
+          }
+        };
+        match step {
+          Some(Ok(v)) => break Some(v),
+          Some(Err(())) => break None,
+          None => {
+            spins += 1;
+            if spins > 50_000_000 {
+              gave_up = true;
+              break None;
+            }
+            if spins % 256 == 0 {
+              std::thread::yield_now();
+            }
+          }
+        }
+      };
+      drop(fut);
+      (first, h.join().unwrap_or(false), gave_up)
+    });
+    res.executions += 1;
+    res.count("oneshot_race/races", 1);
+    res.count(if poll_mode { "oneshot_race/receiver_repolls_recv_future" } else { "oneshot_race/receiver_spins_try_recv" }, 1);
+    if gave_up {
+      res.inconclusive("oneshot race: receiver saw neither the value nor Disconnected in 50M attempts");
+      continue;
+    }
+    match first {
+      Some(v) if v == id => res.count("oneshot_race/value_received", 1),
+      Some(v) => {
+        let w = json!({"engine": "oneshot race burst", "sent": id, "received": v});
+        res.violation(&format!("{}/oneshot/phantom-value/race", prop), "oneshot receiver obtained a value that was not sent", &args.replay_dir, &w);
+      }
+      None if !sent => res.count("oneshot_race/disconnected_without_value", 1),
+      None => {
+        // send reported Ok, the receiver observed Disconnected first
+        let late = rx.try_recv().ok();
+        let w = json!({"engine": "oneshot race burst", "receiver_mode": if poll_mode { "one recv future re-polled with a no-op waker" } else { "try_recv loop" },
+          "sender": "send(value) returned Ok on another thread (send consumes the handle: last sender gone right after)",
+          "receiver_observed": "Disconnected", "try_recv_after_both_threads_finished": format!("{:?}", late), "sender_delay_spins": delay});
+        match (prop, late) {
+          ("C04", Some(_)) => res.violation("C04/oneshot/value-after-disconnected/race", "a oneshot receiver observed Disconnected and obtained the value afterwards", &args.replay_dir, &w),
+          ("C01", _) => res.violation("C01/oneshot/lost-value/race", "a value whose send reported Ok was not delivered to the receiver that kept receiving until it observed Disconnected", &args.replay_dir, &w),
+          _ => res.count("other_property_observations/oneshot_disconnected_before_value", 1),
+        }
+      }
+    }
+  }
+}
+
 fn main() {
   let args = Args::parse();
   vh_core::install_quiet_panic_hook();
@@ -126,7 +230,13 @@ fn main() {
   let mut inc_dumps = 0u32;
   let mut by_flavour: BTreeMap<String, u64> = BTreeMap::new();
   let mut sigs_seen: std::collections::HashSet<String> = Default::default();
+  let oneshot_races = matches!(prop.as_str(), "C01" | "C04") && focus.flavours.iter().any(|f| f.oneshot());
+  let mut bursts = 0u64;
   while args.time_left() && exec < max_exec {
+    if oneshot_races && exec % 64 == 7 {
+      bursts += 1;
+      oneshot_race_burst(&prop, &mut rng, &mut res, &args, bursts + args.shard * 1_000_003);
+    }
     let scn = gen_scenario(&mut rng, exec + args.shard * 1_000_003, &focus, tiny);
     exec += 1;
     let o = execute(scn, &cfg, &canary, ledger_on);
